@@ -18,5 +18,6 @@ ebbd938 C06 D1-stale-frontier
 c32be8a C15 D12-player-two-utility
 d9263b7 C17 D13-merged-infosets
 d9263b7 C15 D13-merged-infosets
+0aec9de C01 D16-zero-reach-infoset
 LIST
 ./check.sh --setup
